@@ -180,3 +180,163 @@ Qed.
 Example c38_pem_premises_satisfiable :
   (forall c : N, (fun b => match b with [n] => Some n | _ => None end) ((fun c => [c]) c) = Some c).
 Proof. reflexivity. Qed.
+
+(* ---- second tie to the source: the translated enum tables ----
+   Gen/GoSerial.v is regenerated by tools/go2coq before every run of this
+   check from the enum files themselves: every String() method and every
+   new…/New…(raw string) function, constants resolved through their const
+   blocks (the "…Str" blocks included) and ErrUnknownType.Error() through
+   errors.go.  For ALL integers the generated String() IS to_string of the
+   model's table, and for ALL strings the generated decoder IS of_text
+   (ser_result, Proofs/GenSerial.v: a decoder with an error result yields the
+   model's error class instead of the Go value/error pair).  Renaming an enum
+   string, swapping two arms or changing a default breaks one of these.
+   Not translated: the (Un)MarshalJSON / (Un)MarshalText wrappers. *)
+From Verif Require Proofs.GenSerial Gen.GoSerial.
+Theorem c38_generated_model_agrees_SDPType :
+  (forall v : Z, GoSerial.SDPType_String v = to_string E_SDPType v) /\
+  (forall raw : string, Some (Ok (GoSerial.NewSDPType raw)) = of_text E_SDPType raw).
+Proof. exact GenSerial.gen_SDPType_agrees. Qed.
+Print Assumptions c38_generated_model_agrees_SDPType.
+
+Theorem c38_generated_model_agrees_SignalingState :
+  (forall v : Z, GoSerial.SignalingState_String v = to_string E_SignalingState v) /\
+  (forall raw : string, Some (Ok (GoSerial.newSignalingState raw)) = of_text E_SignalingState raw).
+Proof. exact GenSerial.gen_SignalingState_agrees. Qed.
+Print Assumptions c38_generated_model_agrees_SignalingState.
+
+Theorem c38_generated_model_agrees_ICEConnectionState :
+  (forall v : Z, GoSerial.ICEConnectionState_String v = to_string E_ICEConnectionState v) /\
+  (forall raw : string, Some (Ok (GoSerial.NewICEConnectionState raw)) = of_text E_ICEConnectionState raw).
+Proof. exact GenSerial.gen_ICEConnectionState_agrees. Qed.
+Print Assumptions c38_generated_model_agrees_ICEConnectionState.
+
+Theorem c38_generated_model_agrees_ICEGatheringState :
+  (forall v : Z, GoSerial.ICEGatheringState_String v = to_string E_ICEGatheringState v) /\
+  (forall raw : string, Some (Ok (GoSerial.NewICEGatheringState raw)) = of_text E_ICEGatheringState raw).
+Proof. exact GenSerial.gen_ICEGatheringState_agrees. Qed.
+Print Assumptions c38_generated_model_agrees_ICEGatheringState.
+
+Theorem c38_generated_model_agrees_ICEGathererState :
+  (forall v : Z, GoSerial.ICEGathererState_String v = to_string E_ICEGathererState v).
+Proof. exact GenSerial.gen_ICEGathererState_agrees. Qed.
+Print Assumptions c38_generated_model_agrees_ICEGathererState.
+
+Theorem c38_generated_model_agrees_ICETransportState :
+  (forall v : Z, GoSerial.ICETransportState_String v = to_string E_ICETransportState v) /\
+  (forall raw : string, Some (Ok (GoSerial.newICETransportState raw)) = of_text E_ICETransportState raw).
+Proof. exact GenSerial.gen_ICETransportState_agrees. Qed.
+Print Assumptions c38_generated_model_agrees_ICETransportState.
+
+Theorem c38_generated_model_agrees_ICERole :
+  (forall v : Z, GoSerial.ICERole_String v = to_string E_ICERole v) /\
+  (forall raw : string, Some (Ok (GoSerial.newICERole raw)) = of_text E_ICERole raw).
+Proof. exact GenSerial.gen_ICERole_agrees. Qed.
+Print Assumptions c38_generated_model_agrees_ICERole.
+
+Theorem c38_generated_model_agrees_ICEComponent :
+  (forall v : Z, GoSerial.ICEComponent_String v = to_string E_ICEComponent v) /\
+  (forall raw : string, Some (Ok (GoSerial.newICEComponent raw)) = of_text E_ICEComponent raw).
+Proof. exact GenSerial.gen_ICEComponent_agrees. Qed.
+Print Assumptions c38_generated_model_agrees_ICEComponent.
+
+Theorem c38_generated_model_agrees_ICEProtocol :
+  (forall v : Z, GoSerial.ICEProtocol_String v = to_string E_ICEProtocol v) /\
+  (forall raw : string, Some (GenSerial.ser_result (GoSerial.NewICEProtocol raw)) = of_text E_ICEProtocol raw).
+Proof. exact GenSerial.gen_ICEProtocol_agrees. Qed.
+Print Assumptions c38_generated_model_agrees_ICEProtocol.
+
+Theorem c38_generated_model_agrees_ICECandidateType :
+  (forall v : Z, GoSerial.ICECandidateType_String v = to_string E_ICECandidateType v) /\
+  (forall raw : string, Some (GenSerial.ser_result (GoSerial.NewICECandidateType raw)) = of_text E_ICECandidateType raw).
+Proof. exact GenSerial.gen_ICECandidateType_agrees. Qed.
+Print Assumptions c38_generated_model_agrees_ICECandidateType.
+
+Theorem c38_generated_model_agrees_ICECredentialType :
+  (forall v : Z, GoSerial.ICECredentialType_String v = to_string E_ICECredentialType v) /\
+  (forall raw : string, Some (GenSerial.ser_result (GoSerial.newICECredentialType raw)) = of_text E_ICECredentialType raw).
+Proof. exact GenSerial.gen_ICECredentialType_agrees. Qed.
+Print Assumptions c38_generated_model_agrees_ICECredentialType.
+
+Theorem c38_generated_model_agrees_ICETransportPolicy :
+  (forall v : Z, GoSerial.ICETransportPolicy_String v = to_string E_ICETransportPolicy v) /\
+  (forall raw : string, Some (Ok (GoSerial.NewICETransportPolicy raw)) = of_text E_ICETransportPolicy raw).
+Proof. exact GenSerial.gen_ICETransportPolicy_agrees. Qed.
+Print Assumptions c38_generated_model_agrees_ICETransportPolicy.
+
+Theorem c38_generated_model_agrees_DTLSTransportState :
+  (forall v : Z, GoSerial.DTLSTransportState_String v = to_string E_DTLSTransportState v) /\
+  (forall raw : string, Some (Ok (GoSerial.newDTLSTransportState raw)) = of_text E_DTLSTransportState raw).
+Proof. exact GenSerial.gen_DTLSTransportState_agrees. Qed.
+Print Assumptions c38_generated_model_agrees_DTLSTransportState.
+
+Theorem c38_generated_model_agrees_DTLSRole :
+  (forall v : Z, GoSerial.DTLSRole_String v = to_string E_DTLSRole v).
+Proof. exact GenSerial.gen_DTLSRole_agrees. Qed.
+Print Assumptions c38_generated_model_agrees_DTLSRole.
+
+Theorem c38_generated_model_agrees_SCTPTransportState :
+  (forall v : Z, GoSerial.SCTPTransportState_String v = to_string E_SCTPTransportState v) /\
+  (forall raw : string, Some (Ok (GoSerial.newSCTPTransportState raw)) = of_text E_SCTPTransportState raw).
+Proof. exact GenSerial.gen_SCTPTransportState_agrees. Qed.
+Print Assumptions c38_generated_model_agrees_SCTPTransportState.
+
+Theorem c38_generated_model_agrees_DataChannelState :
+  (forall v : Z, GoSerial.DataChannelState_String v = to_string E_DataChannelState v) /\
+  (forall raw : string, Some (Ok (GoSerial.newDataChannelState raw)) = of_text E_DataChannelState raw).
+Proof. exact GenSerial.gen_DataChannelState_agrees. Qed.
+Print Assumptions c38_generated_model_agrees_DataChannelState.
+
+Theorem c38_generated_model_agrees_PeerConnectionState :
+  (forall v : Z, GoSerial.PeerConnectionState_String v = to_string E_PeerConnectionState v) /\
+  (forall raw : string, Some (Ok (GoSerial.newPeerConnectionState raw)) = of_text E_PeerConnectionState raw).
+Proof. exact GenSerial.gen_PeerConnectionState_agrees. Qed.
+Print Assumptions c38_generated_model_agrees_PeerConnectionState.
+
+Theorem c38_generated_model_agrees_BundlePolicy :
+  (forall v : Z, GoSerial.BundlePolicy_String v = to_string E_BundlePolicy v) /\
+  (forall raw : string, Some (Ok (GoSerial.newBundlePolicy raw)) = of_text E_BundlePolicy raw).
+Proof. exact GenSerial.gen_BundlePolicy_agrees. Qed.
+Print Assumptions c38_generated_model_agrees_BundlePolicy.
+
+Theorem c38_generated_model_agrees_RTCPMuxPolicy :
+  (forall v : Z, GoSerial.RTCPMuxPolicy_String v = to_string E_RTCPMuxPolicy v) /\
+  (forall raw : string, Some (Ok (GoSerial.newRTCPMuxPolicy raw)) = of_text E_RTCPMuxPolicy raw).
+Proof. exact GenSerial.gen_RTCPMuxPolicy_agrees. Qed.
+Print Assumptions c38_generated_model_agrees_RTCPMuxPolicy.
+
+Theorem c38_generated_model_agrees_SDPSemantics :
+  (forall v : Z, GoSerial.SDPSemantics_String v = to_string E_SDPSemantics v) /\
+  (forall raw : string, Some (Ok (GoSerial.newSDPSemantics raw)) = of_text E_SDPSemantics raw).
+Proof. exact GenSerial.gen_SDPSemantics_agrees. Qed.
+Print Assumptions c38_generated_model_agrees_SDPSemantics.
+
+Theorem c38_generated_model_agrees_RTPTransceiverDirection :
+  (forall v : Z, GoSerial.RTPTransceiverDirection_String v = to_string E_RTPTransceiverDirection v) /\
+  (forall raw : string, Some (Ok (GoSerial.NewRTPTransceiverDirection raw)) = of_text E_RTPTransceiverDirection raw).
+Proof. exact GenSerial.gen_RTPTransceiverDirection_agrees. Qed.
+Print Assumptions c38_generated_model_agrees_RTPTransceiverDirection.
+
+Theorem c38_generated_model_agrees_NetworkType :
+  (forall v : Z, GoSerial.NetworkType_String v = to_string E_NetworkType v) /\
+  (forall raw : string, Some (GenSerial.ser_result (GoSerial.NewNetworkType raw)) = of_text E_NetworkType raw).
+Proof. exact GenSerial.gen_NetworkType_agrees. Qed.
+Print Assumptions c38_generated_model_agrees_NetworkType.
+
+Theorem c38_generated_model_agrees_ICETrickleCapability :
+  (forall v : Z, GoSerial.ICETrickleCapability_String v = to_string E_ICETrickleCapability v).
+Proof. exact GenSerial.gen_ICETrickleCapability_agrees. Qed.
+Print Assumptions c38_generated_model_agrees_ICETrickleCapability.
+
+Theorem c38_generated_model_agrees_RTPCodecType :
+  (forall v : Z, GoSerial.RTPCodecType_String v = to_string E_RTPCodecType v) /\
+  (forall raw : string, Some (Ok (GoSerial.NewRTPCodecType raw)) = of_text E_RTPCodecType raw).
+Proof. exact GenSerial.gen_RTPCodecType_agrees. Qed.
+Print Assumptions c38_generated_model_agrees_RTPCodecType.
+
+Example c38_generated_nontrivial :
+  GoSerial.SignalingState_String 2 = "have-local-offer" /\ GoSerial.SignalingState_String 9 = "unknown" /\
+  GoSerial.newSignalingState "have-local-offer" = 2 /\
+  GenSerial.ser_result (GoSerial.NewICEProtocol "UDP") = Ok 1 /\
+  GenSerial.ser_result (GoSerial.NewICEProtocol "sctp") = Err "unknown-protocol".
+Proof. repeat split; reflexivity. Qed.
